@@ -368,16 +368,6 @@ func (m *c02Model) run(hist []int) statespace.Outcome {
 		got := fmt.Sprintf("matched=%v class=%s rules=%v v4=%v v6=%v", matched, c06ClassNames[gotClass], sortedSet(netTexts(res.NetworkRules)), sortedSet(gotV4), sortedSet(gotV6))
 		want := fmt.Sprintf("matched=%v class=%s rules=%v v4=%v v6=%v", wantMatched, c06ClassNames[wantClass], sortedSet(wantNR), sortedSet(wantV4), sortedSet(wantV6))
 		obs.WriteString(strconv.Itoa(gotClass))
-		// the accessors of the result only read it: the answer is the same after they have been called
-		if p := protect(func() { _ = res.DNSRewrites(); _ = res.DNSRewritesAll(); _ = res.DNSRewrites() }); p != nil && !reported {
-			reported = true
-			violate("no-crash", map[string]any{"lines": sortedSet(texts), "request": q.desc, "route": "DNSRewrites"}, fmt.Sprintf("list %q, request %s: DNSRewrites/DNSRewritesAll on the result panic: %v", texts, q.desc, p))
-		}
-		if after := fmt.Sprintf("matched=%v class=%s rules=%v v4=%v v6=%v", matched, c06ClassNames[c06ClassOfRule(res.NetworkRule)], sortedSet(netTextsSafe(res.NetworkRules)), sortedSet(gotV4), sortedSet(gotV6)); after != got && !reported {
-			reported = true
-			violate("dns-answer-equals-reference", map[string]any{"lines": sortedSet(texts), "request": q.desc, "route": "result read again after DNSRewrites"},
-				fmt.Sprintf("list %q, request %s: the result reads %s; after DNSRewrites() and DNSRewritesAll() have been called on it, it reads %s", texts, q.desc, got, after))
-		}
 		if dup := moreOftenThan(netTexts(res.NetworkRules), wantNR); dup != "" && !reported {
 			reported = true
 			violate("dns-answer-equals-reference", map[string]any{"lines": sortedSet(texts), "request": q.desc, "duplicate": dup},
@@ -387,6 +377,16 @@ func (m *c02Model) run(hist []int) statespace.Outcome {
 			reported = true
 			violate("dns-answer-equals-reference", map[string]any{"lines": sortedSet(texts), "request": q.desc},
 				fmt.Sprintf("list %q, request %s: engine %s (rule %s), reference %s", texts, q.desc, got, renderNetText(res.NetworkRule), want))
+		}
+		// the accessors of the result only read it: the answer is the same after they have been called
+		if p := protect(func() { _ = res.DNSRewrites(); _ = res.DNSRewritesAll(); _ = res.DNSRewrites() }); p != nil && !reported {
+			reported = true
+			violate("no-crash", map[string]any{"lines": sortedSet(texts), "request": q.desc, "route": "DNSRewrites"}, fmt.Sprintf("list %q, request %s: DNSRewrites/DNSRewritesAll on the result panic: %v", texts, q.desc, p))
+		}
+		if after := fmt.Sprintf("matched=%v class=%s rules=%v v4=%v v6=%v", matched, c06ClassNames[c06ClassOfRule(res.NetworkRule)], sortedSet(netTextsSafe(res.NetworkRules)), sortedSet(gotV4), sortedSet(gotV6)); after != got && !reported {
+			reported = true
+			violate("dns-answer-equals-reference", map[string]any{"lines": sortedSet(texts), "request": q.desc, "route": "result read again after DNSRewrites"},
+				fmt.Sprintf("list %q, request %s: the result reads %s; after DNSRewrites() and DNSRewritesAll() have been called on it, it reads %s", texts, q.desc, got, after))
 		}
 	}
 	// the other routes to the same answer: the Match(hostname) wrapper, the same request object asked again,
